@@ -9,7 +9,7 @@ from gvsim.sim import Raised, Sim, finite_float, is_bool, sut
 
 PROP = 'C01'
 TIERS = {'quick': {'runs': 2400, 'wall': 100}, 'thorough': {'runs': 60000, 'wall': 1500}}
-REACH = ['bad_action_stateful_outside', 'bad_action_functional_int', 'member_probe_held_undeclared', 'member_probe_obs_undeclared_colour', 'facing_out_PICK_N_DROP', 'on_unpaired_telepod', 'holding_Key', 'knob:view_covers_grid', 'knob:near_duplicate_states', 'knob:long_strip', 'knob:nested_chain', 'knob:composition_around_builtin_reset', 'knob:object_identity_aliasing', 'pose_scan']  # probes / faults that must fire in every batch (reach gaps are reported in the evidence)
+REACH = ['bad_action_stateful_outside', 'bad_action_functional_int', 'member_probe_held_undeclared', 'member_probe_obs_undeclared_colour', 'facing_out_PICK_N_DROP', 'on_unpaired_telepod', 'holding_Key', 'knob:view_covers_grid', 'knob:near_duplicate_states', 'knob:long_strip', 'knob:nested_chain', 'knob:composition_around_builtin_reset', 'knob:object_identity_aliasing', 'pose_scan', 'member_probe_placeholder_type']  # probes / faults that must fire in every batch (reach gaps are reported in the evidence)
 RULE = ('one run = one client (random composition of built-in components with declared spaces over free-form member '
         'worlds - agent on edges facing outward, any held item, unpaired telepods, nested boxes - or a shipped '
         'configuration) under a seeded op list of functional steps for every action on pool states, stateful steps, '
@@ -275,6 +275,8 @@ def op_member_probe(sim, cl, variant, i, k):
             # the placeholder types are object types too: a state holding one is outside any space that does not declare it
             cand = undeclared + ['Hidden', 'NoneGridObject']
             w['cells'][y][x] = an(cand[k % len(cand)])
+            if cand[k % len(cand)] in ('Hidden', 'NoneGridObject'):
+                sim.ctx.probe('member_probe_placeholder_type')
         elif variant == 'agent_outside':
             w['agent'][0], w['agent'][1] = [(-1, x), (w['h'], x), (y, -1), (y, w['w'])][k % 4]
         elif variant == 'held_undeclared':
